@@ -463,8 +463,15 @@ func genOp(g *common.Gen) {
 			emit("-", "-", 0, "-")
 		}
 		g.Stat("cmd.short")
-	default: // a send or a probe on its own
-		if r.Chance(1, 2) {
+	default: // a face closing on its own, a send or a probe
+		if r.Chance(1, 3) {
+			// never the management or the barrier face
+			g.Op("close %d", common.Pick(r, []int{2, 3, 4, 5, 7, 8, 8, 9, 10, 50}))
+			g.Stat("close")
+			if r.Chance(1, 2) {
+				g.Op("cmd %d - %s %s %s 0 -", fA, pLocalhost, gc("faces"), gc("list"))
+			}
+		} else if r.Chance(1, 2) {
 			g.Op("send %d %d", common.Pick(r, []int{2, 3, 4, 5, 7, 50}), common.Pick(r, []int{60, 1400, 8000}))
 			g.Stat("send")
 		} else {
